@@ -2,7 +2,7 @@
 build_bytes_vec and build_bytes_vec_compressed succeed on the parsed packet and parsing their output gives a packet equal
 to the first in every field.
  hdr      : all 2^96 twelve-byte headers (every flag word, opcode and rcode nibble, id; counts must be 0 to be accepted)
- q.L      : header + question area of L-12 fully symbolic bytes (names of every shape incl. pointers into the header)
+ q.L      : header + question area of L-12 (5..7 / 5..9) bytes: L17 fully symbolic (all QTYPE/QCLASS codes, root name); longer: symbolic name bytes (names of every shape incl. pointers into the header)
  rr.<T>   : header | one record of type T with RDLENGTH 0..K and fully symbolic RDATA, class and TTLs - names inside RDATA are
             parsed for real, so foreign (non-canonical) compression pointers into earlier bytes are inside
  opt      : header | OPT record (symbolic udp size / ttl / options area) | A record, OPT placed first or last"""
@@ -19,7 +19,7 @@ CRATE = 'simple-dns'
 def tasks(tier, params):
     K = 6 if tier == 'thorough' else 4
     out = [('hdr', {'kind': 'hdr'})]
-    for L in range(13, (18 if tier == 'thorough' else 16)):
+    for L in range(17, (22 if tier == 'thorough' else 20)):       # 12 + root name + 4 is the shortest message with a question
         out.append(('q.L%d' % L, {'kind': 'q', 'L': L}))
     for t in S.TYPES:
         if t.name != 'OPT':
@@ -51,6 +51,13 @@ def run_task(prog, tid, params, tier):
         m[2], m[3] = mk('u8', 0), mk('u8', 0)          # flag word is covered by task hdr
         for i, v in zip(range(4, 12), (0, 1, 0, 0, 0, 0, 0, 0)):
             m[i] = mk('u8', v)                           # one question
+        if L > 17:
+            # L17 (root name) covers every QTYPE / QCLASS code and id; longer question names: fixed id (names may point into the
+            # header and read it as labels), QTYPE A, QCLASS IN with the unicast bit symbolic
+            m[0], m[1] = mk('u8', 0x12), mk('u8', 0x34)
+            m[L - 4], m[L - 3], m[L - 1] = mk('u8', 0), mk('u8', 1), mk('u8', 1)
+            uni = sym('uni', 'u8')
+            m[L - 2] = sc_from(uni.z() & 0x80, 'u8')
         msgs.append(m)
     elif kind == 'rr':
         for rdlen in range(0, params['K'] + 1):
@@ -159,6 +166,8 @@ def run_task(prog, tid, params, tier):
         agg.update(soft)
         agg['covers_witnessed'] = 1
         return agg
+    agg['bound_ok'] = ('names inside the received message whose decoding needs more than 10 Name::parse loop iterations (long backwards-pointer '
+                       'cycles) are outside the bound; Name::parse itself is decided by C06 / C01.name')
     agg['covers_witnessed'] = 1 if agg['covers']['accepted'] else 0
     if not agg['covers']['accepted']:
         agg['status'] = 'inconclusive'
